@@ -277,6 +277,12 @@ func forInnerLabels(f *forExpander) forStateFn {
 			opLower := strings.ToLower(f.nextToken.val)
 			if opLower == "for" {
 				f.forDepth += 1
+				if f.forDepth == 1 && f.forLineLabelsToWrite != nil && len(f.labelBuf) == 0 && len(f.forLineLabels) > 0 {
+					// the block labels are still waiting for the first instruction and will be
+					// written in front of this nested block; give it a counter name of its own,
+					// or the last of them would be taken for its counter
+					f.labelBuf = append(f.labelBuf, "__for_anon_"+f.forCountLabel)
+				}
 				return forInnerEmitLabels
 			} else if opLower == "rof" {
 				if f.forDepth > 0 {
